@@ -35,6 +35,7 @@ type c14Conn struct {
 	chunkIdx  int
 	reads     int
 	eofAtEnd  bool // true: EOF when the stream is exhausted; false: block until Close
+	eofWithData bool // with eofAtEnd: the Read that hands out the last bytes returns io.EOF with them (io.Reader allows it)
 	closed    bool
 	written   [][]byte
 	local     net.Addr
@@ -94,6 +95,9 @@ func (c *c14Conn) Read(b []byte) (int, error) {
 	copy(b, c.stream[c.pos:c.pos+n])
 	c.pos += n
 	c.chunkLeft -= n
+	if c.eofWithData && c.eofAtEnd && c.pos == len(c.stream) {
+		return n, io.EOF
+	}
 
 	return n, nil
 }
@@ -255,6 +259,7 @@ func TestVerif_C14_FramingRoundTrip(t *testing.T) {
 		}
 		chunks := c14ChunksGen(full).Draw(rt, "chunks")
 		r := newC14Conn(stream[:cut], chunks, true)
+		r.eofWithData = rapid.IntRange(0, 2).Draw(rt, "eofTogetherWithTheLastBytes") == 0
 
 		labels := []string{}
 		nontrivial := false
@@ -291,7 +296,7 @@ func TestVerif_C14_FramingRoundTrip(t *testing.T) {
 			used := r.consumed() - before
 			frameEnd := off + 2 + len(p)
 			switch {
-			case frameEnd > cut && !(len(p) > bufCap && off+2 <= cut):
+			case frameEnd > cut && !(len(p) > bufLen && off+2 <= cut):
 				// truncated inside this frame: must be an error, never a (short) packet
 				if err == nil {
 					st.Fail(rt, "C14/read/truncated-frame-returned", "stream cut at %d inside frame %d (len %d): returned n=%d without error", cut, i, len(p), n)
@@ -299,9 +304,9 @@ func TestVerif_C14_FramingRoundTrip(t *testing.T) {
 				labels = append(labels, "truncated")
 				nontrivial = true
 				goto done
-			case len(p) > bufCap:
+			case len(p) > bufLen: // the reader's buffer is what it passed: len(buf), whatever spare capacity lies behind it
 				if !errors.Is(err, io.ErrShortBuffer) {
-					st.Fail(rt, "C14/read/oversize-for-buffer", "frame %d of len %d with cap %d: n=%d err=%v, want io.ErrShortBuffer", i, len(p), bufCap, n, err)
+					st.Fail(rt, "C14/read/oversize-for-buffer", "frame %d of len %d with buffer len %d cap %d: n=%d err=%v, want io.ErrShortBuffer", i, len(p), bufLen, bufCap, n, err)
 				}
 				if used != 2 {
 					st.Fail(rt, "C14/read/consumed-beyond-header", "short buffer: consumed %d bytes, want 2", used)
@@ -314,8 +319,8 @@ func TestVerif_C14_FramingRoundTrip(t *testing.T) {
 
 					goto done
 				}
-				if n > bufCap {
-					st.Fail(rt, "C14/read/overflow", "n=%d > cap %d", n, bufCap)
+				if n > bufLen {
+					st.Fail(rt, "C14/read/overflow", "n=%d > len %d", n, bufLen)
 				}
 				if !bytes.Equal(buf[:n], p) {
 					st.Fail(rt, "C14/read/content", "frame %d content differs", i)
